@@ -771,6 +771,8 @@ def err_class(e: BaseException) -> str:
     if type(e).__name__ in ('KeyValError', 'TokenSyntaxError'):
         return type(e).__name__ + ':exported text is not valid keyvalues syntax'
     msg = str(e)
+    if msg.startswith('Bad output value'):
+        return f'{type(e).__name__}:Bad output value'
     msg = re.sub(r'"[^"]*"', '"…"', msg)
     msg = re.sub(r"'[^']*'", "'…'", msg)
     msg = re.sub(r'-?\d+(\.\d+)?', 'N', msg)
@@ -818,7 +820,16 @@ def check_vmf(vmf, opts: dict) -> list[tuple[str, str, dict]]:
             for k, i in enumerate(order):
                 al2[i] = after['entities'][k]
             cands.append((n_diffs(al2), 'hidden-before-visible', al2))
-        best = min(cands, key=lambda c: c[0])
+        # A re-ordering is accepted as the explanation only when it explains *everything* (no difference is left), or
+        # when the IDs were preserved (then the alignment by ID is ground truth whatever else differs).  Picking the
+        # alignment with the fewest differences is wrong: when one entity lost a lot of data (say 100 displacement
+        # vertices) pairing it with a different entity can leave fewer differing paths than the true pairing.
+        best = cands[0]
+        for c in cands[1:]:
+            if c[0] == 0 or (c[1] and not ignore and c[2] is not cands[0][2] and c[0] <= cands[0][0]
+                             and sorted(ids_b) == sorted(ids_a) and ids_b != ids_a):
+                best = c
+                break
         if best[1]:
             out.append((f'order:entities:{best[1]}', f'VMF.entities changed order after export->parse: ids {ids_b} became {ids_a}',
                         {'before': ids_b, 'after': ids_a}))
